@@ -782,6 +782,9 @@ def alias_overwrite_family(quick):
     out.append(("alias:many-references", "functie niets() { 0 }; stel een = float(0); stel veel = [een, een, een, een, een, een, een, een]; stel tekst = string(7); stel veel2 = [tekst, tekst, tekst, tekst, tekst]; stel totaal = float(100); stel naam = string(12); niets(); stel vers = 3.5 + 3.5; [totaal, naam, vers, veel[7], veel2[4]]", [100.0, "12", 7.0, 0.0, "7"]))
     out.append(("alias:one-char-target", "stel t = \"x\"; stel nieuw = \" <-> \"; t[0] = nieuw; stel l = [\"Zoë\", \"q\"]; stel doel = l[1]; doel[0] = l[0]; [t, nieuw, lengte(nieuw), l[0], doel]", [" <-> ", " <-> ", 5, "Zoë", "Zoë"]))
     out.append(("alias:one-char-target-function", "functie zet(doel, bron) { doel[0] = bron; lengte(bron) } stel d = \"y\"; stel b = \"euro\"; [zet(d, b), d, b]", [4, "euro", "euro"]))
+    out.append(("alias:recycled-text", "functie a() { stel t = \"ééééé\"; t[3] } functie b() { stel u = \"abcdefgh\"; u[5] } functie c() { stel v = \"€€€\"; [v[2], v[0]] } functie d() { stel w = \"0123456789\"; [w[4], w[-1]] }; [a(), b(), a(), b(), c(), d(), c(), d()]",
+                ["é", "f", "é", "f", ["€", "€"], ["4", "9"], ["€", "€"], ["4", "9"]]))
+    out.append(("alias:recycled-text-loop", "functie lees(w, k) { stel t = string(w); t[k] }; stel uit = []; stel i = 0; stel r = \"\"; zolang i < 6 { i += 1; r = lees(\"héé😀ab\", 4); r = lees(\"twee\", 3); r = lees(\"😀😀😀😀\", 2); r = lees(\"abcdef\", 5) }; [r, lees(\"één\", 2), lees(\"xyz\", 2)]", ["f", "n", "z"]))
     out.append(("alias:char", "stel s = \"banaan\"; stel c = s[1]; c[0] = \"X\"; stel q = s[3]; [s, c, s[1], q, lengte(q)]", ["banaan", "X", "a", "a", 1]))
     out.append(("alias:char2", "stel s = \"aaa\"; stel c = s[0]; stel d = s[0]; c[0] = \"oe\"; [c, d, s, s[-1]]", ["oe", "a", "aaa", "a"]))
     out.append(("alias:type-string", "stel t = type(1); stel u = type(2); t[0] = \"X\"; [t, u, type(3)]", ["Xnt", "int", "int"]))
